@@ -3,6 +3,7 @@
 package core
 
 import (
+	"context"
 	"crypto/sha256"
 	"encoding/binary"
 	"encoding/hex"
@@ -407,11 +408,21 @@ func parentMain(ck *Check, tier string, workers int, seed int64, capS int) int {
 		go func(w int) {
 			defer wg.Done()
 			out := filepath.Join(dir, fmt.Sprintf("w%d.json", w))
-			cmd := exec.Command(self, "-worker", ck.ID, tier, strconv.Itoa(w), strconv.Itoa(workers),
+			// a worker observes the wall-clock cap itself; one that is still alive long after it is stuck outside every
+			// place where the cap is looked at (code under test that blocks or loops for ever): it is killed, and the run ends as
+			// an infrastructure error rather than never
+			hard := time.Until(deadline) + time.Duration(capS/2+180)*time.Second
+			cctx, cancel := context.WithTimeout(context.Background(), hard)
+			defer cancel()
+			cmd := exec.CommandContext(cctx, self, "-worker", ck.ID, tier, strconv.Itoa(w), strconv.Itoa(workers),
 				strconv.FormatInt(seed, 10), strconv.FormatInt(deadline.Unix(), 10), out)
 			cmd.Env = append(os.Environ(), "GOMAXPROCS=2")
 			b, err := cmd.CombinedOutput()
 			res[w].log = string(b)
+			if cctx.Err() != nil {
+				res[w].err = fmt.Errorf("worker %d did not end within %v after the wall-clock cap (the code under test blocks or loops outside the explorer's control); killed", w, time.Duration(capS/2+180)*time.Second)
+				return
+			}
 			if err != nil {
 				res[w].err = fmt.Errorf("worker %d: %v", w, err)
 				return
